@@ -9,7 +9,7 @@ import json, subprocess
 import vlib, sess
 from astlib import *
 
-SHAPES = ("globals", "locals", "jump", "longjump", "refused-then-continue")
+SHAPES = ("globals", "locals", "jump", "longjump", "refused-then-continue", "deepfor", "widefor")
 
 
 def script(shape, n):
@@ -34,6 +34,24 @@ def script(shape, n):
     if shape == "jump":
         body = "\n".join("l = 1" for _ in range(n))
         return ["f = () -> {\n%s\nl\n}" % body, "f()", "1 + 1"], None
+    if shape in ("deepfor", "widefor"):
+        # iterator contexts of one lexical nest: n loops nested in each other (deepfor), or one loop with n iterators in lock step whose
+        # body holds another loop (widefor); the outermost loop goes round twice, so every context is resumed after the inner ones were destroyed
+        def nm(k):
+            sfx, m = "", k
+            while True:
+                sfx = chr(97 + m % 26) + sfx
+                m //= 26
+                if m == 0:
+                    break
+            return "v" + sfx + "q"
+        if shape == "deepfor":
+            src = "t = 0\n" if False else ""
+            head = " ".join("for %s <- fromto(0, %d)" % (nm(k), 2 if k == 0 else 1) for k in range(n))
+            return ["t = 0", head + " t = t + 1", "t", "1 + 1"], None
+        vs = ", ".join(nm(k) for k in range(n))
+        its = ", ".join("fromto(%d, %d)" % (k, k + 2) for k in range(n))
+        return ["t = 0", "for %s <- %s for w <- fromto(0, 2) t = t + %s + w" % (vs, its, nm(n - 1)), "t", "1 + 1"], None
     if shape == "longjump":
         # a conditional whose body is n instructions long and uses no constants (so that the data segment is not what overflows):
         # the jump over the body is about n; with c false the body must be skipped, with c true executed
@@ -108,8 +126,8 @@ def run(tier, replay=None):
     for v in vecs[:: max(1, len(vecs) // 4)][:4]:
         ck.sample(v)
     # ---- scripts crossing the limits
-    sizes = {"quick": {"globals": [8000, 16300, 16400], "locals": [16000, 32700, 32800], "jump": [16000, 32700, 32800], "refused-then-continue": [33000], "longjump": [16000, 33000, 66000]},
-             "thorough": {"globals": [4000, 8000, 16000, 16370, 16380, 16390, 16400, 20000, 33000], "locals": [8000, 16000, 32000, 32760, 32766, 32770, 33000, 65530, 65540], "jump": [8000, 16000, 32000, 32760, 32770, 33000, 65530, 65540], "refused-then-continue": [32769, 33000, 66000], "longjump": [8000, 16000, 32760, 32770, 33000, 65530, 65540, 66000, 131100]}}[tier]
+    sizes = {"quick": {"globals": [8000, 16300, 16400], "locals": [16000, 32700, 32800], "jump": [16000, 32700, 32800], "refused-then-continue": [33000], "longjump": [16000, 33000, 66000], "deepfor": [64, 257, 300], "widefor": [64, 256, 300]},
+             "thorough": {"globals": [4000, 8000, 16000, 16370, 16380, 16390, 16400, 20000, 33000], "locals": [8000, 16000, 32000, 32760, 32766, 32770, 33000, 65530, 65540], "jump": [8000, 16000, 32000, 32760, 32770, 33000, 65530, 65540], "refused-then-continue": [32769, 33000, 66000], "longjump": [8000, 16000, 32760, 32770, 33000, 65530, 65540, 66000, 131100], "deepfor": [16, 64, 255, 256, 257, 258, 300, 513, 1000], "widefor": [16, 64, 255, 256, 257, 300, 513, 1000]}}[tier]
     # ds0: data segment size after the built-ins are loaded, measured on the real pipeline
     probe = vlib.run_real([{"id": 1, "items": [{"src": "1"}], "stdin": []}])
     cases = []
@@ -166,6 +184,15 @@ def run(tier, replay=None):
             xo = res[n]
             if desc is None and xo["kind"] == "val" and xo["val"] != {"k": "int", "v": lastok}:
                 desc = "after the script x is %s, the last accepted assignment was x = %d" % (json.dumps(xo["val"]), lastok)
+        elif shape in ("deepfor", "widefor"):
+            d1, d2, d3 = res[1], res[2], res[3]
+            want_t = 2 if shape == "deepfor" else (n - 1) * 2 + (n - 1 + 1) * 2 + 2        # sum over the two rounds and w in 0..1 of last variable + w
+            if d1["kind"] == "val" and d2.get("val") != {"k": "int", "v": want_t}:
+                desc = "the loop nest was compiled but leaves t = %s instead of %d: iterator contexts were confused" % (json.dumps({k: d2.get(k) for k in ("kind", "val", "err")}), want_t)
+            elif d1["kind"] not in ("val", "cerr"):
+                desc = "the loop nest: %s" % json.dumps({k: d1.get(k) for k in ("kind", "err", "msg")})
+            if desc is None and d3.get("val") != I2:
+                desc = "after the loop nest the session does not go on: 1 + 1 gives %s" % json.dumps({k: d3.get(k) for k in ("kind", "val", "err", "msg")})
         elif shape == "longjump":
             d0, d1, d2, d3 = res[0], res[1], res[2], res[3]
             if d0["kind"] == "val":
